@@ -254,12 +254,15 @@ Definition ps_dyn_added_old (fuel : nat) (a : ps_dyn) : ps_prog Z :=
 Definition ps_dyn_deleted (fuel : nat) (name : bytes) : ps_prog Z :=
   ps_txn PS_DYN true 1 (fun ho hn => ps_dyn_copy fuel ho hn name) ps_no_tail.
 
-(* coap_op_resource_deleted: counter entry first, then the dynamic-resource entry;
-   [has_cnt] / [has_dyn]: whether that file was given to coap_persist_startup *)
+(* coap_op_resource_deleted: the dynamic-resource entry first, the counter entry last (so that
+   whatever a kill leaves of the resource still has its counter);
+   [has_dyn] / [has_cnt]: whether that file was given to coap_persist_startup *)
 Definition ps_res_deleted (fuel : nat) (has_dyn has_cnt : bool) (name : bytes) : ps_prog Z :=
-  ps_bind (if has_cnt then ps_cnt_deleted fuel name else PsRet 0) (fun c =>
-    if c =? PS_FUEL then PsRet PS_FUEL
-    else if has_dyn then ps_dyn_deleted fuel name else PsRet 1).
+  ps_bind (if has_dyn then ps_dyn_deleted fuel name else PsRet 1) (fun d =>
+    if d =? PS_FUEL then PsRet PS_FUEL
+    else if has_cnt then
+      ps_bind (ps_cnt_deleted fuel name) (fun c => if c =? PS_FUEL then PsRet PS_FUEL else PsRet 1)
+    else PsRet 1).
 
 (* ------------------------------------------------------------------ loaders (file side) *)
 
